@@ -90,15 +90,15 @@ VALID_BINOP_TYPES = {
               FloatType: {NumType: NumType_any,
                           IntType: FloatType_any,
                           FloatType: FloatType_any}},
-    ast.FloorDiv: {NumType: {NumType: IntType_any,
+    ast.FloorDiv: {NumType: {NumType: NumType_any,
+                             IntType: NumType_any,
+                             FloatType: FloatType_any},
+                   IntType: {NumType: NumType_any,
                              IntType: IntType_any,
-                             FloatType: IntType_any},
-                   IntType: {NumType: IntType_any,
-                             IntType: IntType_any,
-                             FloatType: IntType_any},
-                   FloatType: {NumType: IntType_any,
-                               IntType: IntType_any,
-                               FloatType: IntType_any}},
+                             FloatType: FloatType_any},
+                   FloatType: {NumType: FloatType_any,
+                               IntType: FloatType_any,
+                               FloatType: FloatType_any}},
     ast.Mult: {NumType: {NumType: NumType_any,
                          IntType: NumType_any,
                          FloatType: NumType_any,
